@@ -19,8 +19,8 @@ set_option linter.unusedVariables false
 
 namespace LLBuild.Engine
 
-/-- the shape of every accepted cycle report -/
-theorem C07_lasso {P : Program} {s s' : St} {ks : List Key} (h : step P s (.cycle ks) = some s') :
+/-- the shape of every accepted non-empty cycle report -/
+theorem C07_lasso {P : Program} {s s' : St} {ks : List Key} (h : step P s (.cycle ks) = some s') (hne : ks ≠ []) :
     ∃ root, s.target = some root ∧ ks.head? = some root ∧
       (∀ ab ∈ ks.zip ks.tail, waitsFor s ab.1 ab.2 = true) ∧
       (∃ l, ks.getLast? = some l ∧ l ∈ ks.dropLast) := by
@@ -30,6 +30,10 @@ theorem C07_lasso {P : Program} {s s' : St} {ks : List Key} (h : step P s (.cycl
     split at h
     · rename_i hl
       refine ⟨root, htgt, ?_⟩
+      have hl : lassoOk s root ks = true := by
+        rcases (Bool.or_eq_true_iff).1 hl with a | a
+        · exact a
+        · simp only [Bool.and_eq_true, List.isEmpty_iff] at a; exact absurd a.1 hne
       unfold lassoOk at hl
       cases ks with
       | nil => simp at hl
@@ -40,6 +44,22 @@ theorem C07_lasso {P : Program} {s s' : St} {ks : List Key} (h : step P s (.cycl
         split at hlast
         · rename_i l hgl; exact ⟨l, hgl, by simpa using hlast⟩
         · cases hlast
+    · cases h
+  · cases h
+
+/-- as coded (known finding F30): an empty report is accepted only when the requested key is already
+complete, i.e. the rules waiting on each other are reachable only through discovered dependencies -/
+theorem C07_empty_report_only_when_root_complete {P : Program} {s s' : St}
+    (h : step P s (.cycle []) = some s') : ∃ root, s.target = some root ∧ s.status root = .done := by
+  simp only [step] at h
+  split at h
+  · rename_i root htgt
+    split at h
+    · rename_i hl
+      refine ⟨root, htgt, ?_⟩
+      rcases (Bool.or_eq_true_iff).1 hl with a | a
+      · simp [lassoOk] at a
+      · simp only [Bool.and_eq_true] at a; simpa [isDone] using a.2
     · cases h
   · cases h
 
